@@ -152,17 +152,118 @@ package devicefinder
 //@   ensures never-a-deleted-profile: isptr(r, agd.DeviceResultOK) ==> !asptr(r, agd.DeviceResultOK).Profile.Deleted
 //@   ensures isptr(r, agd.DeviceResultOK) ==> okValid(r)
 
-// The extraction of the identifier from the request (URL path or basic-auth
-// user, TLS server name, EDNS option) is string handling outside the proved
-// subset; it does not consult the database or the authenticator.
-//@ func (*Default).deviceData
+// ---------------------------------------------------------------------------
+// C03: where the identifier comes from.  A device is recognised only via its
+// own identifier: on plain DNS that is the dnsmasq CPE-ID EDNS option and
+// nothing else; on DoT/DoH/DoQ it is the connection's own data - for DoH the
+// basic-auth user name if there is one (never a human-readable ID), otherwise
+// the URL path, and only then the TLS server name below one of the configured
+// device domains - and never an EDNS option.  What is a valid identifier
+// (length, host-name label) is agd.NewDeviceID's business: validDevID.
+//@ import dns github.com/miekg/dns
+//@ import url net/url
+//@ fun validDevID(s string) bool
+//@ axiom an-identifier-is-not-empty: !validDevID("")
+//@ func agd.NewDeviceID
 //@   modifies nothing
+//@   ensures (err == nil) == validDevID(s) && (err == nil ==> id == s) && (err != nil ==> id == "")
+//@ func newDeviceDataError
+//@   modifies nothing
+//@   ensures err != nil
+// parseDeviceData (string handling: dashes, SplitN, normalisation) is outside
+// the contracts; it yields a device ID or a human-readable ID, never both, and
+// neither with an error.
+//@ func (*Default).parseDeviceData
+//@   modifies nothing
+//@   ensures !(id != "" && extID != nil) && (err != nil ==> id == "" && extID == nil)
+// pathElements (path.Clean, Split) likewise: one or two elements, or an error.
+//@ func pathElements
+//@   modifies nothing
+//@   ensures err == nil ==> len(elems) == 1 || len(elems) == 2
+//@   ensures err != nil ==> len(elems) == 0
+
+//@ pred isCPE(o dns.EDNS0) = isptr(o, dns.EDNS0_LOCAL) && asptr(o, dns.EDNS0_LOCAL) != nil && asptr(o, dns.EDNS0_LOCAL).Code == 65074
+// lastOpt: the OPT record IsEdns0 returned last (this package's view of
+// miekg's IsEdns0: the last OPT record of the additional section, or nil).
+//@ ghost lastOpt *dns.OPT
+//@ func (*dns.Msg).IsEdns0
+//@   params m
+//@   modifies lastOpt
+//@   ensures lastOpt == result
+
+//@ func deviceIDFromENDSOPT
+//@   property C03
+//@   requires ref(opt) != 0 && (isptr(opt, dns.EDNS0_LOCAL) ==> asptr(opt, dns.EDNS0_LOCAL) != nil)
+//@   modifies nothing
+//@   ensures only-the-cpe-id-option-identifies: !isCPE(opt) ==> id == "" && err == nil
+//@   ensures its-own-bytes-validated: isCPE(opt) ==> (err == nil) == validDevID(strof(asptr(opt, dns.EDNS0_LOCAL).Data)) &&
+//@             (err == nil ==> id == strof(asptr(opt, dns.EDNS0_LOCAL).Data)) && (err != nil ==> id == "")
+
+//@ func deviceIDFromEDNS
+//@   property C03
+//@   requires req != nil
+//@   modifies lastOpt
+// (options of a decoded message are not nil, typed or untyped)
+//@   atcall deviceIDFromENDSOPT assume options-are-not-nil: ref(arg0) != 0 && (isptr(arg0, dns.EDNS0_LOCAL) ==> asptr(arg0, dns.EDNS0_LOCAL) != nil)
+//@   ensures no-option-record-no-identifier: lastOpt == nil ==> id == "" && err == nil
+//@   ensures identified-by-a-cpe-id-option-of-this-request: id != "" ==> lastOpt != nil && validDevID(id) && err == nil &&
+//@             (exists j int :: 0 <= j && j < len(lastOpt.Option) && isCPE(lastOpt.Option[j]) && id == strof(asptr(lastOpt.Option[j], dns.EDNS0_LOCAL).Data))
+//@   ensures no-cpe-id-option-no-identifier: lastOpt != nil && (forall j int :: 0 <= j && j < len(lastOpt.Option) ==> !isCPE(lastOpt.Option[j])) ==> id == "" && err == nil
+//@   loop 1 invariant -1 <= #i && #i < len(option.Option) && option == lastOpt && option != nil
+//@   loop 1 invariant forall j int :: 0 <= j && j <= #i ==> !isCPE(option.Option[j])
+
+//@ func matchDomain
+//@   property C03
+//@   modifies nothing
+//@   ensures only-a-configured-device-domain: matchedDomain == "" || (exists i int :: 0 <= i && i < len(domains) && domains[i] == matchedDomain && immSub(lowerOf(sub), matchedDomain))
+//@   ensures matchedDomain != "" ==> len(sub) > len(matchedDomain) + 1
+//@   loop 1 invariant -1 <= #i && #i < len(domains)
+
+//@ func (*Default).deviceDataFromCliSrvName
+//@   property C03
+//@   requires DF(f)
+//@   modifies nothing
+//@   ensures no-server-name-no-identifier: cliSrvName == "" ==> id == "" && extID == nil && err == nil
+//@   ensures !(id != "" && extID != nil) && (err != nil ==> id == "" && extID == nil)
+
+//@ func (*Default).deviceDataFromDoHURL
+//@   property C03
+//@   requires f != nil && u != nil
+//@   modifies nothing
+//@   ensures !(id != "" && extID != nil) && (err != nil ==> id == "" && extID == nil)
+
+//@ func (*Default).deviceDataForDoH
+//@   property C03
+//@   requires f != nil && srvReqInfo != nil && (srvReqInfo.Userinfo == nil ==> srvReqInfo.URL != nil)
+//@   modifies nothing
+//@   ensures with-credentials-the-user-name-and-nothing-else: srvReqInfo.Userinfo != nil ==> extID == nil &&
+//@             (err == nil) == validDevID(uiUser[srvReqInfo.Userinfo]) && (err == nil ==> id == uiUser[srvReqInfo.Userinfo]) && (err != nil ==> id == "")
+//@   ensures !(id != "" && extID != nil) && (err != nil ==> id == "" && extID == nil)
+
+//@ func (*Default).deviceDataFromSrvReqInfo
+//@   property C03
+//@   requires DF(f) && srvReqInfo != nil && (f.srv.Protocol == agd.ProtoDoH && srvReqInfo.Userinfo == nil ==> srvReqInfo.URL != nil)
+//@   modifies nothing
+//@   atcall deviceDataForDoH assert url-and-credentials-identify-on-doh-only: f.srv.Protocol == agd.ProtoDoH
+//@   atcall deviceDataFromCliSrvName assert the-server-name-identifies-only-below-a-configured-device-domain: len(f.deviceDomains) > 0
+//@   ensures !(id != "" && extID != nil) && (err != nil ==> id == "" && extID == nil)
+
+//@ func (*Default).deviceData
+//@   property C03
+//@   requires DF(f) && req != nil && srvReqInfo != nil && (f.srv.Protocol == agd.ProtoDoH && srvReqInfo.Userinfo == nil ==> srvReqInfo.URL != nil)
+//@   modifies lastOpt
+//@   atcall deviceIDFromEDNS assert the-edns-option-identifies-on-plain-dns-only: !(f.srv.Protocol == agd.ProtoDoT || f.srv.Protocol == agd.ProtoDoH || f.srv.Protocol == agd.ProtoDoQ)
+//@   atcall deviceDataFromSrvReqInfo assert connection-data-identifies-on-encrypted-protocols-only: f.srv.Protocol == agd.ProtoDoT || f.srv.Protocol == agd.ProtoDoH || f.srv.Protocol == agd.ProtoDoQ
+//@   ensures plain-dns-never-a-human-readable-id: !(f.srv.Protocol == agd.ProtoDoT || f.srv.Protocol == agd.ProtoDoH || f.srv.Protocol == agd.ProtoDoQ) ==> extID == nil
+//@   ensures !(id != "" && extID != nil) && (err != nil ==> id == "" && extID == nil)
 
 //@ func (*Default).Find
 //@   property C03
 //@   requires DF(f) && req != nil
 //@   requires forall d *agd.Device :: d.Auth != nil ==> (d.Auth.Enabled ==> d.Auth.PasswordHash != nil)
-//@   modifies lookups, lookupKind, lookupKinds, hashChecks, hashOK, authPassed
+//@   modifies lookups, lookupKind, lookupKinds, hashChecks, hashOK, authPassed, lastOpt
+// (the DoH server puts the request's URL into the request information: addRequestInfo, dnsserver)
+//@   atcall deviceData assume a-doh-request-carries-its-url: f.srv.Protocol == agd.ProtoDoH ==> arg3.URL != nil
 //@   ensures dnscrypt-always-anonymous: f.srv.Protocol == agd.ProtoDNSCrypt ==> r == nil && lookups == old(lookups)
 //@   ensures recognised-only-when-authenticated: isptr(r, agd.DeviceResultOK) ==> authPassed
 //@   ensures never-a-deleted-profile: isptr(r, agd.DeviceResultOK) ==> !asptr(r, agd.DeviceResultOK).Profile.Deleted
